@@ -266,6 +266,10 @@ class Shared:
         self.xsd = XmlSerializer(context=self.ctx, config=SerializerConfig(xml_declaration=False, ignore_default_attributes=True))
         self.jp = JsonParser(context=self.ctx)
         self.js = JsonSerializer(context=self.ctx)
+        # the streaming writer (output is produced WHILE the object is walked) with the xml declaration switched on
+        from xsdata.formats.dataclass.serializers.writers import XmlEventWriter
+
+        self.xsn = XmlSerializer(context=self.ctx, writer=XmlEventWriter)
 
 
 def api_ops():
@@ -278,6 +282,8 @@ def api_ops():
         # a render that FAILS after the document has started (a compound value no choice admits): nothing of it may show
         # in what the same serializer instances write next
         "serFails": lambda sh: sh.xs.render(m.Ev(when=3.5)),
+        "serFailsStreaming": lambda sh: sh.xsn.render(m.Ev(when=3.5)),
+        "serStreaming": lambda sh: sh.xsn.render(m.Other(z="o")),
         "serLocalGlobalns": lambda sh: XmlSerializer(context=sh.ctx, config=SerializerConfig(xml_declaration=False, globalns={"Street": LSTREET, "Road": LROAD, "List": List, "Optional": Optional})).render(
             LROAD(streets=[LSTREET(name="l", lanes=2)])),
         "parseTown": lambda sh: _name_and_value(sh.xp.from_string("<Town><streets><name>a</name></streets></Town>", m.Town)),
